@@ -536,6 +536,41 @@ def history(t):
     return {"problems": problems[:8], "n_problems": len(problems), "queries": nq}
 
 
+# --------------------------------------------------------------------------- generic dispatcher call (C19)
+@op
+def call_fn(t):
+    """call any jitted function of the package by module and name with positional arguments"""
+    import importlib
+    m = importlib.import_module(t["module"])
+    f = getattr(m, t["name"])
+    args = [np.asarray(a) if isinstance(a, (list, np.ndarray)) else a for a in t["args"]]
+    args = [a.copy() if isinstance(a, np.ndarray) else a for a in args]
+    r = f(*args)
+    def conv(x):
+        if isinstance(x, tuple):
+            return [conv(y) for y in x]
+        if isinstance(x, list):
+            return [conv(y) for y in x]
+        if x is None:
+            return None
+        return np.array(x)
+    return {"ret": conv(r), "args_after": [np.array(a) for a in args if isinstance(a, np.ndarray)]}
+
+
+@op
+def list_dispatchers(t):
+    """all numba dispatchers of the package (name, module, explicit signatures)"""
+    import importlib
+    import pkgutil
+    out = []
+    for mi in pkgutil.walk_packages(fteikpy.__path__, "fteikpy."):
+        m = importlib.import_module(mi.name)
+        for k, v in vars(m).items():
+            if type(v).__name__ in ("CPUDispatcher",) and getattr(v, "__module__", None) == mi.name:
+                out.append((mi.name, k, [str(s) for s in v.signatures]))
+    return {"dispatchers": sorted(out)}
+
+
 # --------------------------------------------------------------------------- mesh export (C20)
 @op
 def meshio_export(t):
